@@ -20,7 +20,7 @@ DRIVERS = ['inst_handles.cpp', 'inst_containers.cpp']
 
 
 def run(ctx):
-    units = [os.path.join(ir.VERIF, 'drivers', d) for d in DRIVERS]
+    units = [os.path.join(ir.VERIF, 'drivers', d) for d in DRIVERS + (['inst_containers_thorough.cpp'] if ctx.tier == 'thorough' else [])]
     lib = ir.library_units() if ctx.tier == 'thorough' else []
     fixture = os.path.join(ir.VERIF, 'fixtures', 'rc_bad.cpp')
     prog = ir.load_units(units + lib, force_inst=units)
